@@ -13,10 +13,6 @@ import (
 
 var errVkConn = errors.New("injected connection failure")
 
-// vkInterleave, when set, is called at the interleaving points that a property's source rewrite
-// (meta.json "rewrites") inserts into the code under test.
-var vkInterleave func(point string)
-
 type vkAddr struct{}
 
 func (vkAddr) Network() string { return "mem" }
